@@ -4,6 +4,7 @@ import (
 	"encoding/json"
 	"fmt"
 	"math/big"
+	"math/rand"
 	"sort"
 	"strconv"
 	"strings"
@@ -404,10 +405,15 @@ func docMods(doc map[string]any, sch *schemaInfo) []docMod {
 // Serialized credentials: the claim carries the type, the four slot fields,
 // the subject id and the expiration; the other statements are not in the claim.
 func boundSite(sch *schemaInfo, m docMod, hasSubjectType bool) bool {
+	s := m.Site
+	if s == "change:id" {
+		// the credential's own identifier is the IRI of the root node: it is the object of no
+		// statement, the merklizer has no entry for it, and ToCoreClaim does not read it
+		return false
+	}
 	if sch.Merklized {
 		return true
 	}
-	s := m.Site
 	switch {
 	case strings.HasSuffix(s, ":expirationDate"), strings.HasSuffix(s, ":credentialSubject.id"):
 		return true
@@ -518,6 +524,39 @@ func allBitFlips(slots [8]*big.Int) []claimMod {
 				continue
 			}
 			out = append(out, claimMod{Site: fmt.Sprintf("flip:%s.%d", slotNames[s], b), Field: fieldOfBit(s, b), Slots: m})
+		}
+	}
+	return out
+}
+
+// sampledFlips: per bit field the lowest and the highest bit and k random ones;
+// every bit of the one-bit and three-bit flag fields.
+func sampledFlips(slots [8]*big.Int, rng *rand.Rand, k int) []claimMod {
+	all := allBitFlips(slots)
+	by := map[string][]int{}
+	var order []string
+	for i, m := range all {
+		if _, ok := by[m.Field]; !ok {
+			order = append(order, m.Field)
+		}
+		by[m.Field] = append(by[m.Field], i)
+	}
+	var out []claimMod
+	for _, f := range order {
+		idx := by[f]
+		pick := map[int]bool{idx[0]: true, idx[len(idx)-1]: true}
+		if len(idx) <= 3 {
+			for _, i := range idx {
+				pick[i] = true
+			}
+		}
+		for j := 0; j < k; j++ {
+			pick[idx[rng.Intn(len(idx))]] = true
+		}
+		for _, i := range idx {
+			if pick[i] {
+				out = append(out, all[i])
+			}
 		}
 	}
 	return out
